@@ -319,8 +319,37 @@ def loader_shape(fn):
     return got == want
 
 
+def magic_dependencies(tree):
+    """what the module-level `bc_magic = …` is computed from: every name, dotted attribute and constant-index subscript in
+    the expression (e.g. `bc_version`, `pickle.dumps`, `sys.version_info[0]`)"""
+    assigns = [n for n in tree.body if isinstance(n, ast.Assign)
+               and any(isinstance(t, ast.Name) and t.id == "bc_magic" for t in n.targets)]
+    others = [n for n in ast.walk(tree) if isinstance(n, (ast.Assign, ast.AugAssign, ast.AnnAssign))
+              and n not in assigns and any(isinstance(t, ast.Name) and t.id == "bc_magic" for t in ast.walk(n)
+                                           if isinstance(t, ast.Name) and isinstance(t.ctx, ast.Store))]
+    if len(assigns) != 1 or others:
+        raise Untranslatable("bc_magic is not assigned exactly once at module level")
+    deps = []
+
+    def visit(n):
+        if isinstance(n, ast.Subscript) and isinstance(n.slice, ast.Constant):
+            deps.append(_u(n))
+            return
+        if isinstance(n, ast.Attribute):
+            deps.append(_u(n))
+            return
+        if isinstance(n, ast.Name):
+            deps.append(n.id)
+            return
+        for c in ast.iter_child_nodes(n):
+            visit(c)
+    visit(assigns[0].value)
+    return sorted(set(deps))
+
+
 def gen():
     tree = parse("bccache")
+    magic_deps = magic_dependencies(tree)
     bucket = find_class(tree, "Bucket")
     steps, sites = load_steps(find_func(bucket, "load_bytecode"))
     wsteps = write_steps(find_func(bucket, "write_bytecode"))
@@ -393,6 +422,9 @@ structure DecoderSite where
 def decoderSites : List DecoderSite := [
 {site_rows}
 ]
+
+-- READ: what the module-level `bc_magic` is computed from (names, dotted attributes, constant-index subscripts)
+def magicDependsOn : List String := {strs(magic_deps)}
 
 -- READ: Bucket.write_bytecode writes these parts in this order
 def writeParts : List String := {strs(wsteps)}
